@@ -5,6 +5,7 @@ import FsModel.MstCert
 import FsModel.UnionFind
 import FsModel.Spl
 import FsModel.Blocks
+import FsModel.PassCheck
 
 /-! Scenario loop of `fsmodel`. -/
 namespace Fs.Driver
@@ -66,7 +67,12 @@ def callBgraph (c : Call) (st : St) : List String :=
   let certI : List String := match findInp c "impl_bg_edges", findInp c "impl_bg_tree" with
     | some ev, some tv =>
       let ie := (parseE ev).toArray
-      [line "bg_cert_impl" (if Fs.Mst.certImpl S nb ie (tv.map natOf) cb.root then "1" else "0")]
+      -- lowest passes on the edge array the implementation reported (after orient_edges: every clause
+      -- is checked up to the swap of an edge's ends); soundness `Fs.ImplCheck.checkPasses_sound`
+      let passes := Fs.ImplCheck.checkPasses S (fun a b => a.toBits == b.toBits) n st.topo.nbrs st.mask st.isBase
+        (look b.labels 0) b.outlets f ie
+      [line "bg_cert_impl" (if Fs.Mst.certImpl S nb ie (tv.map natOf) cb.root then "1" else "0"),
+       line "bg_cert_passes" (if passes then "1" else "0")]
     | _, _ => []
   certI ++
   [ line "bg_cert" (if cert then "1" else "0"),
